@@ -555,18 +555,19 @@ class ClassStub(Stub):
         self.attribute_stubs = attribute_stubs or []
         if function_stubs is not None:
             self.function_stubs = {stub.name: stub for stub in function_stubs}
+        # stubs of the classes nested in this one, by name
+        self.class_stubs: Dict[str, "ClassStub"] = {}
 
-    def render(self) -> str:
+    def render(self, prefix: str = "") -> str:
+        inner = prefix + "    "
         parts = [
-            f"class {self.name}:",
+            f"{prefix}class {self.name}:",
             *[
-                stub.render(prefix="    ")
+                stub.render(prefix=inner)
                 for stub in sorted(self.attribute_stubs, key=lambda stub: stub.name)
             ],
-            *[
-                stub.render(prefix="    ")
-                for _, stub in sorted(self.function_stubs.items())
-            ],
+            *[stub.render(prefix=inner) for _, stub in sorted(self.function_stubs.items())],
+            *[stub.render(prefix=inner) for _, stub in sorted(self.class_stubs.items())],
         ]
         return "\n".join(parts)
 
@@ -848,10 +849,6 @@ def build_module_stubs(entries: Iterable[FunctionDefinition]) -> Dict[str, Modul
         path = entry.qualname.split(".")
         name = path.pop()
         class_path = path
-        # TODO: Handle nested classes
-        klass = None
-        if len(class_path) > 0:
-            klass = ".".join(class_path)
         if entry.module not in mod_stubs:
             mod_stubs[entry.module] = ModuleStub()
         mod_stub = mod_stubs[entry.module]
@@ -865,10 +862,14 @@ def build_module_stubs(entries: Iterable[FunctionDefinition]) -> Dict[str, Modul
         # Don't need to import anything from the same module
         imports.pop(entry.module, None)
         mod_stub.imports_stub.imports.merge(imports)
-        if klass is not None:
-            if klass not in mod_stub.class_stubs:
-                mod_stub.class_stubs[klass] = ClassStub(klass)
-            class_stub = mod_stub.class_stubs[klass]
+        if class_path:
+            # a method of class A.B is stubbed inside `class B:` inside `class A:`
+            class_stubs = mod_stub.class_stubs
+            for klass in class_path:
+                if klass not in class_stubs:
+                    class_stubs[klass] = ClassStub(klass)
+                class_stub = class_stubs[klass]
+                class_stubs = class_stub.class_stubs
             class_stub.function_stubs[func_stub.name] = func_stub
         else:
             mod_stub.function_stubs[func_stub.name] = func_stub
